@@ -45,12 +45,29 @@ ASSUMPTIONS = [
 ]
 MUST_REACH = {"steps": 5000, "states": 300, "orphans_adopted": 20, "cascade_kills": 20, "region_moves": 20,
               "local_id_changes": 10, "teardowns": 20, "futures_resolved": 20, "futures_cancelled": 20, "reparents": 20,
-              "multi_orphan_lists": 10, "kills_of_unknown_with_orphans": 5, "steps_without_loop_iteration": 50, "requests_pending_when_object_left": 5, "object_manager_configs_covered": 3}
+              "multi_orphan_lists": 10, "kills_of_unknown_with_orphans": 5, "steps_without_loop_iteration": 50, "requests_pending_when_object_left": 5, "object_manager_configs_covered": 3,
+              "avatar_updates": 50, "multi_object_messages": 20, "viewer_cache_hits": 20, "viewer_cache_chains_loaded": 5,
+              "viewer_cache_hits_on_tracked_objects": 5}
 
 HA = (1000 << 32) | 1000
 HB = (1001 << 32) | 1000
 HANDLES = {"A": HA, "B": HB}
-FULL = {i: UUID(int=0xF000 + i) for i in range(1, 6)}
+FULL = {i: UUID(int=0xF000 + i) for i in range(1, 10)}
+# 6..8 only ever appear out of the viewer's on-disk object cache (viewer-cache configuration), 9 is an avatar
+CACHE_ID_A = UUID(int=0xCAC4E)
+# what the two viewers' caches hold for region A: (local, crc) -> (full index, parent); "stale" entries carry another crc
+CACHED = {(6, 43): (6, 0), (7, 50): (7, 1), (8, 57): (8, 6)}
+# the other viewer's cache still has an older state of the same objects (another CRC, not linked to anything)
+CACHED_OLDER = {(k[0], k[1] + 1000): (v[0], 0) for k, v in CACHED.items()}
+ALL_CACHED = {**CACHED, **CACHED_OLDER}
+NAMEVALUES = {
+    "both": "FirstName STRING RW SV Jane\nLastName STRING RW SV Doe\nTitle STRING RW SV x",
+    "first": "FirstName STRING RW SV Jane",
+    "last": "LastName STRING RW SV Doe",
+    "title": "Title STRING RW SV just a title",
+    "display": "DisplayName STRING RW SV \nFirstName STRING RW SV J",
+    "none": None,
+}
 _ser = UDPMessageSerializer()
 _deser = UDPMessageDeserializer()
 
@@ -97,6 +114,80 @@ def object_update(handle, local, full, parent):
             "Rotation": (0.0, 0.0, 0.0, 1.0), "AngularVelocity": (0.0, 0.0, 0.0)}))
         _CACHE[key] = _roundtrip(msg)
     return _CACHE[key]
+
+
+def avatar_block(local, full, parent, nv):
+    blk = Block("ObjectData", ID=local, FullID=full, PCode=int(T.PCode.AVATAR), Scale=Vector3(0.5, 0.5, 1.9),
+                UpdateFlags=0, PathCurve=16, ParentID=parent, ProfileCurve=1, PathScaleX=100, PathScaleY=100,
+                CRC=local * 7 + 1, NameValue=NAMEVALUES[nv], TextureEntry=b"", TextColor=b"\x00" * 4, ExtraParams=b"\x00",
+                fill_missing=True)
+    return blk
+
+
+def prim_block(local, full, parent):
+    return Block("ObjectData", ID=local, FullID=full, PCode=int(T.PCode.PRIMITIVE), Scale=Vector3(0.5, 0.5, 0.5),
+                 UpdateFlags=268568894, PathCurve=16, ParentID=parent, ProfileCurve=1, PathScaleX=100, PathScaleY=100,
+                 CRC=local * 7 + 1, NameValue=None, TextureEntry=b"", TextColor=b"\x00" * 4, ExtraParams=b"\x00",
+                 fill_missing=True)
+
+
+def multi_update(handle, items):
+    """One ObjectUpdate carrying several objects: items = (local, full, parent, kind) with kind 'prim' or a NAMEVALUES key."""
+    key = ("M", handle, tuple(items))
+    if key not in _CACHE:
+        blocks = []
+        for (local, full, parent, kind) in items:
+            blk = prim_block(local, full, parent) if kind == "prim" else avatar_block(local, full, parent, kind)
+            blocks.append(blk)
+        msg = Message("ObjectUpdate", Block("RegionData", RegionHandle=handle, TimeDilation=123), *blocks, packet_id=1)
+        for blk in msg["ObjectData"]:
+            blk.serialize_var("ObjectData", (60, {
+                "Position": (1.0, 2.0, 3.0), "Velocity": (0.0, 0.0, 0.0), "Acceleration": (0.0, 0.0, 0.0),
+                "Rotation": (0.0, 0.0, 0.0, 1.0), "AngularVelocity": (0.0, 0.0, 0.0)}))
+        _CACHE[key] = _roundtrip(msg)
+    return _CACHE[key]
+
+
+def compressed_payload(local, full, parent, crc, seed_key):
+    ser = T.ObjectUpdateCompressedDataSerializer
+    extra = random.Random(repr(seed_key)).getrandbits(11) & ~int(T.CompressedFlags.PARENT_ID)
+    flags = T.CompressedFlags(extra | (int(T.CompressedFlags.PARENT_ID) if parent else 0))
+    for attempt in range(40):
+        d = gen_spec.Deriver(random.Random(f"{seed_key}:{attempt}"), size_budget=8,
+                             top_overrides={"Flags": flags, "PCode": T.PCode.PRIMITIVE, "ID": local, "FullID": full, "CRC": crc})
+        try:
+            val = d.gen(ser.TEMPLATE)
+        except gen_spec.Unsupported:
+            continue
+        if parent:
+            val["ParentID"] = parent
+        blk = Block("ObjectData", UpdateFlags=0, fill_missing=True)
+        blk.message_name = "ObjectUpdateCompressed"
+        try:
+            return bytes(ser.serialize(blk, val))
+        except Exception:
+            continue
+    raise RuntimeError("could not build a compressed payload")
+
+
+def write_viewer_caches(home):
+    """Two viewers' object caches for region A.  Each current entry sits in one of them while the other holds a stale entry
+    (another CRC) for the same local id - in both orders, since the order in which viewer directories are found is arbitrary."""
+    import os
+    from ..vocache_fs import write_viewer_dir
+    cur = {k: compressed_payload(k[0], FULL[v[0]], v[1], k[1], ("cache", k)) for k, v in CACHED.items()}
+    stale = {k: compressed_payload(k[0], FULL[CACHED_OLDER[(k[0], k[1] + 1000)][0]], 0, k[1] + 1000, ("stale", k)) for k in CACHED}
+    a, b = [], []
+    for i, k in enumerate(sorted(CACHED)):
+        first, second = (a, b) if i % 2 == 0 else (b, a)
+        first.append((k[0], k[1] + 1000, stale[k]))
+        second.append((k[0], k[1], cur[k]))
+    # something for another region and an unrelated object too
+    a.append((77, 1, cur[sorted(CACHED)[0]]))
+    write_viewer_dir(os.path.join(home, ".viewer_one"), {HA: (CACHE_ID_A.bytes and __import__("uuid").UUID(int=CACHE_ID_A.int), a),
+                                                         ((2000 * 256) << 32) | (2001 * 256):
+                                                             (__import__("uuid").UUID(int=5), [(6, 43, cur[(6, 43)])])})
+    write_viewer_dir(os.path.join(home, ".viewer_two"), {HA: (__import__("uuid").UUID(int=CACHE_ID_A.int), b)}, aligned8=True)
 
 
 def compressed_update(handle, local, full, parent):
@@ -196,6 +287,14 @@ ACTIONS = [
     ("UB1f1", "U", ("B", 1, 1, 0)), ("UB2f2p1", "U", ("B", 2, 2, 1)), ("UB1f4", "U", ("B", 1, 4, 0)),
     ("TA1", "T", ("A", 1)), ("TA4", "T", ("A", 4)),
     ("XA1hit", "X", ("A", 1, 1 * 7 + 1)), ("XA3miss", "X", ("A", 3, 999)),
+    # ids the viewers' on-disk caches know (only the viewer-cache configuration finds them), an ordinary child of one of them
+    ("XA6", "X", ("A", 6, 43)), ("XA7", "X", ("A", 7, 50)), ("XA8", "X", ("A", 8, 57)), ("XA6other", "X", ("A", 6, 2043)), ("XA6older", "X", ("A", 6, 1043)),
+    ("UA2p6", "U", ("A", 2, 2, 6)), ("KA6", "K", ("A", (6,))),
+    # an avatar (name/value pairs of every shape) alone and together with an attachment in one message
+    ("VA9both", "M", ("A", ((9, 9, 0, "both"),))), ("VA9first", "M", ("A", ((9, 9, 0, "first"),))),
+    ("VA9last+2", "M", ("A", ((9, 9, 0, "last"), (2, 2, 9, "prim")))), ("VA9first+4", "M", ("A", ((9, 9, 0, "first"), (4, 4, 9, "prim")))),
+    ("VA9title+1", "M", ("A", ((9, 9, 0, "title"), (1, 1, 0, "prim")))), ("VA9display", "M", ("A", ((9, 9, 0, "display"),))),
+    ("KA9", "K", ("A", (9,))),
     ("PA1", "P", (1, False)), ("FA2", "P", (2, True)), ("PA4", "P", (4, False)),
     ("KA1", "K", ("A", (1,))), ("KA2", "K", ("A", (2,))), ("KA5", "K", ("A", (5,))), ("KA12", "K", ("A", (1, 2))), ("KB1", "K", ("B", (1,))),
     ("DA", "D", ("A",)), ("DB", "D", ("B",)),
@@ -210,6 +309,7 @@ ACTION_BY_NAME = {a[0]: a for a in ACTIONS}
 class Model:
     def __init__(self):
         self.objs = {}     # full index -> [region, local, parent]
+        self.crc = {}      # full index -> CRC of the state last seen
 
     def live(self, region, local):
         for f, (r, l, p) in self.objs.items():
@@ -237,7 +337,7 @@ class Model:
         return False
 
     def key(self):
-        return tuple(sorted((f, tuple(v)) for f, v in self.objs.items()))
+        return tuple(sorted((f, tuple(v), self.crc.get(f)) for f, v in self.objs.items()))
 
 
 class World:
@@ -247,6 +347,8 @@ class World:
         # three configurations of the proxy's object manager, one per shard residue: nothing automatic (default of this rig),
         # automatic re-requests of cache misses, viewer-object-cache mode
         cfg = getattr(ctx, "shard", 0) % 3
+        self.cfg = cfg
+        self.home = None
         settings.ALLOW_AUTO_REQUEST_OBJECTS = cfg == 1
         settings.AUTOMATICALLY_REQUEST_MISSING_OBJECTS = cfg == 1
         settings.USE_VIEWER_OBJECT_CACHE = cfg == 2
@@ -263,6 +365,15 @@ class World:
         for name, region in self.regions.items():
             self.session.open_circuit(("10.0.0.1", 40001), region.circuit_addr, self.transport)
             self.session.objects.track_region_objects(region.handle)
+        if cfg == 2:
+            # the viewers' caches are found under the user's home directory; region A's cache id arrives with its handshake
+            import os
+            import tempfile
+            self.home = tempfile.mkdtemp(prefix="hvc14_")
+            self.old_home = os.environ.get("HOME")
+            os.environ["HOME"] = self.home
+            write_viewer_caches(self.home)
+            self.load_viewer_cache()
         self.model = Model()
         self.futures = []      # [region, local, type name, future]
         self.path = []
@@ -270,8 +381,28 @@ class World:
         self.pending_fut_keys = set()
         self.skip_rng = None
 
+    def load_viewer_cache(self):
+        region = self.regions["A"]
+        region.cache_id = CACHE_ID_A
+        region.objects.load_cache()
+        n = len(region.objects.object_cache.region_caches)
+        if n != 2:
+            self.ctx.inconclusive_because(f"expected both viewers' caches for region A to be found, got {n}")
+        else:
+            self.ctx.count("viewer_cache_chains_loaded")
+
     def close(self):
-        self.rig.close()
+        try:
+            self.rig.close()
+        finally:
+            if self.home:
+                import os
+                import shutil
+                if self.old_home is None:
+                    os.environ.pop("HOME", None)
+                else:
+                    os.environ["HOME"] = self.old_home
+                shutil.rmtree(self.home, ignore_errors=True)
 
     def viol(self, mech, what, **extra):
         self.ok = False
@@ -310,6 +441,7 @@ class World:
                 else:
                     m.objs[fidx] = old
                 return False
+            m.crc[fidx] = local * 7 + 1
             if old is not None:
                 if old[0] != rn:
                     ctx.count("region_moves")
@@ -333,10 +465,60 @@ class World:
             self.handle(rn, terse_update(HANDLES[rn], local))
             if m.live(rn, local) is not None:
                 self.expect_resolved(rn, local, "UPDATE")
+        elif kind == "M":
+            rn, items = args
+            saved = {f: list(v) for f, v in m.objs.items()}
+            olds = []
+            for (local, fidx, parent, _k) in items:
+                holder = m.live(rn, local)
+                if holder is not None and holder != fidx:
+                    m.objs = saved
+                    return False
+                olds.append((fidx, m.objs.get(fidx)))
+                m.objs[fidx] = [rn, local, parent]
+            if m.has_cycle(rn):
+                m.objs = saved
+                return False
+            for (local, fidx, parent, _k) in items:
+                m.crc[fidx] = local * 7 + 1
+            self.path.append(name)
+            if len(items) > 1:
+                ctx.count("multi_object_messages")
+            ctx.count("avatar_updates")
+            self.handle(rn, multi_update(HANDLES[rn], tuple((l, FULL[f], p, k) for (l, f, p, k) in items)))
+            for (local, fidx, parent, _k) in items:
+                self.expect_resolved(rn, local, "UPDATE")
+            for fidx, old in olds:
+                if old is not None and (old[0] != rn or old[1] != m.objs[fidx][1]):
+                    self.expect_left(old[0], old[1])
         elif kind == "X":
             rn, local, crc = args
+            hit = False
+            if self.cfg == 2 and rn == "A" and (local, crc) in ALL_CACHED:
+                fidx, parent = ALL_CACHED[(local, crc)]
+                holder = m.live(rn, local)
+                if holder is not None and holder != fidx:
+                    return False
+                if holder is None or m.crc.get(fidx) != crc:
+                    # unknown object, or a known one in another state than the one the simulator refers to: the cached
+                    # state is what the viewer (and so the tracker) goes by
+                    old = m.objs.get(fidx)
+                    m.objs[fidx] = [rn, local, parent]
+                    if m.has_cycle(rn):
+                        if old is None:
+                            del m.objs[fidx]
+                        else:
+                            m.objs[fidx] = old
+                        return False
+                    m.crc[fidx] = crc
+                    hit = True
+                    ctx.count("viewer_cache_hits")
+                    if holder is not None:
+                        ctx.count("viewer_cache_hits_on_tracked_objects")
             self.path.append(name)
             self.handle(rn, cached_update(HANDLES[rn], local, crc))
+            if hit:
+                self.expect_resolved(rn, local, "UPDATE")
         elif kind == "P":
             fidx, family = args
             self.path.append(name)
@@ -378,6 +560,8 @@ class World:
                 region.mark_dead()
                 self.session.objects.track_region_objects(region.handle)
                 region.circuit.is_alive = True
+                if self.cfg == 2 and rn == "A":
+                    self.load_viewer_cache()      # (the next handshake does this)
             except Exception as e:
                 self.viol("teardown-raised", "region teardown raised", exc=repr(e)[:300])
             for ent in self.futures:
@@ -488,6 +672,12 @@ class World:
                     self.viol("parent-id-differs", "an object's ParentID differs from the last update", region=rn, local=l,
                               real=o.ParentID, model=p)
                 parent_live = p and m.live(rn, p) is not None
+                try:
+                    o.Parent is not None and o.Parent.LocalID
+                except ReferenceError:
+                    self.viol("parent-link-dangling", "an object's Parent link refers to an object that no longer exists",
+                              region=rn, local=l, parent=p)
+                    return
                 if parent_live:
                     if o.Parent is None or o.Parent.LocalID != p:
                         self.viol("parent-link-missing", "an object whose parent is tracked has no Parent link", region=rn, local=l,
